@@ -25,6 +25,8 @@ type c06Case struct {
 	Bytes   model.HexBytes `json:"bytes,omitempty"` // arbitrary bytes (used when Text is empty)
 	Origin  string         `json:"origin"`
 	Written [][2]int       `json:"written,omitempty"` // stream/function of every message, when the text was built valid
+	// History: inputs parsed by the same worker process right before this one
+	History []model.HexBytes `json:"history,omitempty"`
 }
 
 func (c c06Case) input() string {
@@ -124,18 +126,36 @@ func checkC06(c c06Case) (ci caseInfo, err error) {
 	if len(in) > 64<<10 {
 		return ci, fmt.Errorf("harness: input longer than 64 KiB")
 	}
+	for _, h := range c.History {
+		if o, werr := pool.run("sml", h, c06FirstTimeout); werr != nil {
+			return ci, fmt.Errorf("harness: cannot start worker: %v", werr)
+		} else if o.Died || o.TimedOut {
+			return ci, fmt.Errorf("sml.Parse died or hung (%s) on the history input %q", o.Fatal, clipStr(string(h), 200))
+		}
+	}
+	before := pool.history("sml")
 	out, werr := pool.run("sml", []byte(in), c06FirstTimeout)
 	if werr != nil {
 		return ci, fmt.Errorf("harness: cannot start worker: %v", werr)
 	}
 	if out.TimedOut {
-		// second stage of the hang rule: alone in a fresh worker with a larger budget
-		out2, werr := runFresh("sml", []byte(in), c06SecondTimeout)
+		// second stage of the hang rule: after the same recent history, in a fresh worker with a larger budget
+		out2, werr := runFreshAfter("sml", before, []byte(in), c06SecondTimeout)
 		if werr != nil {
 			return ci, fmt.Errorf("harness: cannot start worker: %v", werr)
 		}
-		if out2.TimedOut {
-			return ci, fmt.Errorf("sml.Parse does not return within %v on a %d-byte input (hang): %q", c06SecondTimeout, len(in), clipStr(in, 300))
+		if out2.TimedOut || out2.Died {
+			alone, _ := runFresh("sml", []byte(in), c06SecondTimeout)
+			if alone.TimedOut || alone.Died {
+				return ci, fmt.Errorf("sml.Parse does not return within %v on a %d-byte input (hang): %q", c06SecondTimeout, len(in), clipStr(in, 300))
+			}
+			hist := c
+			for _, h := range before {
+				hist.History = append(hist.History, h)
+			}
+			err := fmt.Errorf("sml.Parse does not return within %v on %q when it is parsed after the %d inputs the same process parsed before (alone it returns): state is carried between calls", c06SecondTimeout, clipStr(in, 200), len(before))
+			p := writeReplay("C06", "c06", hist, err)
+			return ci, fmt.Errorf("%v\n(the case with its history is stored in %s)", err, p)
 		}
 		stats.exclude("inconclusive-first-watchdog-expired")
 		stats.note("first watchdog expired but the input finished alone in a fresh worker: %q", clipStr(in, 120))
@@ -176,6 +196,7 @@ var soupVocabulary = []string{
 	"T", "F", "t", "f", "x", "var1", "x[0]", "x[0][1]", "_", "x[", "x[]", "x[99999999999999999999]", "T1", "Fx",
 	"\"abc\"", "\"\"", "\" \"", "\"a//b\"", "\"<>.\"", "\"\\\"", "\"\\n\"", "\"é\"", "\"日本\"", "\"unclosed", "\"two\nlines\"", "\"\xff\"", "\"", "'", "\\", "//", "// comment", "// comment\n", "//\n", "/", "/x",
 	"\n", "\r\n", "\r", "\t", " ", "  ", "\x00", "\xff", "\xc3", "é", "😀", "\ufeff",
+	"<A x", "<A x>", "<L <A x> <A x", "<L <U1 x> <A x", "<A[2] x", "<L x <A x", "<A x $", "<A x \"",
 	"<L <A x> <A[99999999999] x>>", "<A[99999999999] y> <A y>", "<L x x>", "<U1 v v>", "<L <U1 q> <I1 q>>", "<A[5] \"abc\">", "<A[2..3] z>", "<L[1] <L[1] <L[1] <B 1>>>>",
 }
 
